@@ -26,6 +26,7 @@ import concurrent.futures
 import json
 import os
 import re
+import threading
 
 import vlib
 
@@ -326,55 +327,95 @@ def _triage(ctx, rejected):
 
 # ---------------------------------------------------------------------------------- the check
 
+def _lock_subdir(ctx):
+    """ctx.subdir is not thread safe; the independent TLC runs of this check run in parallel."""
+    if getattr(ctx, "_c19_locked", False):
+        return
+    lock = threading.Lock()
+    plain = ctx.subdir
+
+    def locked(name=None):
+        with lock:
+            return plain(name)
+    ctx.subdir = locked
+    ctx._c19_locked = True
+
+
+def _par_tlc(ctx, jobs):
+    """Run independent TLC jobs (dicts of ctx.tlc keyword arguments, with 'module') in parallel; the
+    bookkeeping of states/transitions is done afterwards in the calling thread."""
+    _lock_subdir(ctx)
+    w = max(2, ctx.workers // 2)
+
+    def one(j):
+        kw = dict(j)
+        module = kw.pop("module")
+        return ctx.tlc(module, count=False, workers=w, **kw)
+
+    with concurrent.futures.ThreadPoolExecutor(max_workers=3) as ex:
+        results = list(ex.map(one, jobs))
+    for j, res in zip(jobs, results):
+        ctx.cov["states"] += res.distinct
+        ctx.cov["transitions"] += res.generated
+        ctx.cov["tlc_runs"].append({"label": j.get("label") or j["module"], "cmd": res.cmd, "generated": res.generated,
+                                    "distinct": res.distinct, "diameter": res.diameter, "wall_s": round(res.wall, 2),
+                                    "cases": len(res.cases), "violated": res.violated})
+    return results
+
+
 def _model(ctx):
-    """Part (a), step 1: the design is model-checked; the as-read variants must fail.  Returns the
-    fault cases TLC enumerated."""
+    """Part (a), step 1 and the enumerations of part (b), as independent TLC runs in parallel: the design is
+    model-checked, the as-read variants must fail, the shapes and descriptions are enumerated.
+    Returns (fault cases, shapes, hand-specified descriptions)."""
     # quick: one exhaustive run that also enumerates the fault cases (Emit);
     # thorough: a larger run without Emit, and a second one that enumerates
     mt = ctx.pick(3, 5)
     cfg = _cfg("DslConc.cfg", MaxTok=mt) if ctx.quick() else _cfg("DslConc.cfg", drop=["INVARIANT Emit"], MaxTok=mt)
-    res = ctx.tlc("DslConc", cfg="DslConcX.cfg", files={"DslConcX.cfg": cfg}, timeout=1800,
-                  label="DslConc design, exhaustive MaxTok=%d" % mt)
-    if not res.ok:
-        raise vlib.Infra("DslConc.tla (design) violates %s on the model -- the spec is wrong, not the code:\n%s"
-                         % (res.violated, res.error_text[:1500]))
-    gen = res
+    jobs = [
+        dict(module="DslConc", cfg="DslConcX.cfg", files={"DslConcX.cfg": cfg}, timeout=1800,
+             label="DslConc design, exhaustive MaxTok=%d" % mt),
+        # strings with escape sequences: the decoder sends one rune per element, whatever its length in bytes
+        dict(module="DslConc", cfg="DslConcE.cfg", files={"DslConcE.cfg": _cfg("DslConcEsc.cfg", MaxRunes=ctx.pick(3, 4))},
+             timeout=1800, label="DslConc design, strings with escape sequences (runes sent /= bytes)"),
+        dict(module="Dsl", cfg=ctx.pick("Dsl.cfg", "DslFull.cfg"), timeout=1800,
+             label="Dsl lookup-list shapes and hand-specified descriptions"),
+        dict(module="DslConc", cfg="DslConcLive.cfg", timeout=900, label="DslConc design, liveness under weak fairness"),
+        dict(module="DslConc", cfg="DslConcAsRead.cfg", timeout=600,
+             label="DslConc as read (unbuffered decoder channel): must fail"),
+        dict(module="DslConc", cfg="DslConcTight.cfg", timeout=600,
+             label="DslConc, buffer one short per escaped backslash: must fail"),
+        dict(module="DslConc", cfg="DslConcNoLine.cfg", timeout=600,
+             label="DslConc as read (error items without line): must fail"),
+    ]
     if not ctx.quick():
-        gcfg = _cfg("DslConc.cfg", MaxTok=4, MaxPeek=1)
-        gen = ctx.tlc("DslConc", cfg="DslConcG.cfg", files={"DslConcG.cfg": gcfg}, timeout=1800,
-                      label="DslConc design, MaxTok=4, fault-case enumeration")
-        if not gen.ok:
-            raise vlib.Infra("DslConc.tla (enumeration run) violates %s" % gen.violated)
-    # strings with escape sequences: the decoder sends one rune per element, whatever its length in bytes
-    ecfg = _cfg("DslConcEsc.cfg", MaxRunes=ctx.pick(3, 4))
-    esc = ctx.tlc("DslConc", cfg="DslConcE.cfg", files={"DslConcE.cfg": ecfg}, timeout=1800,
-                  label="DslConc design, strings with escape sequences (runes sent /= bytes)")
-    if not esc.ok:
-        raise vlib.Infra("DslConc.tla (escape configuration) violates %s" % esc.violated)
-    live = ctx.tlc("DslConc", cfg="DslConcLive.cfg", timeout=900, label="DslConc design, liveness under weak fairness")
+        jobs.append(dict(module="DslConc", cfg="DslConcG.cfg", files={"DslConcG.cfg": _cfg("DslConc.cfg", MaxTok=4, MaxPeek=1)},
+                         timeout=1800, label="DslConc design, MaxTok=4, fault-case enumeration"))
+    rr = _par_tlc(ctx, jobs)
+    res, esc, sh, live, neg, neg3, neg2 = rr[:7]
+    gen = res if ctx.quick() else rr[7]
+    for r, what in ((res, "design"), (esc, "escape configuration"), (gen, "enumeration run")):
+        if not r.ok:
+            raise vlib.Infra("DslConc.tla (%s) violates %s on the model -- the spec is wrong, not the code:\n%s"
+                             % (what, r.violated, r.error_text[:1500]))
     if not live.ok:
         raise vlib.Infra("DslConc.tla (design) violates liveness: %s" % live.violated)
-    neg = ctx.tlc("DslConc", cfg="DslConcAsRead.cfg", timeout=600,
-                  label="DslConc as read (unbuffered decoder channel): must fail")
     if neg.violated not in ("SinkGood", "deadlock"):
         raise vlib.Infra("negative configuration DslConcAsRead did not fail as expected (%s): the model is vacuous"
                          % neg.violated)
     last = "\n".join(neg.counterexample[-20:])
     if 'ppc = "exit"' not in last or 'pc |-> "send"' not in last:
         raise vlib.Infra("negative configuration failed in an unexpected state:\n" + last)
-    neg3 = ctx.tlc("DslConc", cfg="DslConcTight.cfg", timeout=600,
-                   label="DslConc, buffer one short per escaped backslash: must fail")
     if neg3.violated not in ("SinkGood", "deadlock"):
         raise vlib.Infra("negative configuration DslConcTight did not fail as expected (%s)" % neg3.violated)
-    neg2 = ctx.tlc("DslConc", cfg="DslConcNoLine.cfg", timeout=600,
-                   label="DslConc as read (error items without line): must fail")
     if neg2.violated != "ResultOK":
         raise vlib.Infra("negative configuration DslConcNoLine did not fail as expected (%s)" % neg2.violated)
+    if sh.violated:
+        raise vlib.Infra("shape enumeration violated " + sh.violated)
     ctx.notes.append("negative configurations fail in TLC as required: unbuffered decoder channel -> %s (parser exited, "
                      "decoder blocked in send); buffer = bytes - 2 - backslashes -> %s; error items without line -> ResultOK"
                      % (neg.violated, neg3.violated))
     ctx.cov["exhaustive"] = True
-    ctx.cov["bounds"] = {"MaxTok": mt, "MaxStr": 2, "MaxRunes": 3, "MaxPeek": 2,
+    ctx.cov["bounds"] = {"MaxTok": mt, "MaxStr": 2, "MaxRunes": 3, "MaxPeek": 2, "escape_config": "MaxTok 2, runes p/e/b",
                          "parse_error": "after any item / at any rune", "lexical_error": "at the end of any token list",
                          "interleavings": "all"}
     seen, out = set(), []
@@ -383,7 +424,9 @@ def _model(ctx):
         if k not in seen:
             seen.add(k)
             out.append(c)
-    return out
+    shapes = [c for c in sh.cases if "mid" not in c]
+    means = sorted([c for c in sh.cases if "mid" in c], key=lambda c: c["mid"])
+    return out, shapes, means
 
 
 def run(ctx):
@@ -397,16 +440,9 @@ def run(ctx):
         "abstract fault positions are mapped to real tokens by keeping the number of items received before the fault, the "
         "number of items after it, and the rune index",
     ]
-    fcases = _model(ctx)
+    fcases, shapes, means = _model(ctx)
     if len(fcases) < 500:
         raise vlib.Infra("only %d fault cases" % len(fcases))
-
-    sh = ctx.tlc("Dsl", cfg=ctx.pick("Dsl.cfg", "DslFull.cfg"), timeout=1200,
-                 label="Dsl lookup-list shapes and hand-specified descriptions")
-    if sh.violated:
-        raise vlib.Infra("shape enumeration violated " + sh.violated)
-    shapes = [c for c in sh.cases if "mid" not in c]
-    means = sorted([c for c in sh.cases if "mid" in c], key=lambda c: c["mid"])
     if len(shapes) < 1000 or len(means) < 10:
         raise vlib.Infra("only %d shapes, %d descriptions" % (len(shapes), len(means)))
 
@@ -489,6 +525,7 @@ def run(ctx):
         for ch in chunks:
             jobs.append((ch, "DslTrace: round-trip observations", (len(shapes) * len(ch)) // max(1, len(rp))))
         rejected = []
+        _lock_subdir(ctx)
         with concurrent.futures.ThreadPoolExecutor(max_workers=min(len(jobs), max(1, ctx.workers // 2))) as ex:
             for r in ex.map(lambda j: _validate(ctx, j[0], j[1], j[2]), jobs):
                 rejected += r
